@@ -8,6 +8,7 @@
        and what "the checksum verifies" means (RFC 1071: the one's complement sum
        over the covered bytes, checksum field included, folds to 0xffff). *)
 From EP Require Import Base.Bytes Checksum.Spec Parse.Types Parse.View Builder.Model.
+From EP Require CtlMsg.Spec Roundtrip.Icmp4 Roundtrip.Icmp6.
 Local Open Scope N_scope.
 
 (* ------------------------------------------------------------------ layout *)
@@ -103,16 +104,29 @@ Definition expected (c : cfg) (plen : N) : vpacket :=
 
 (* "given a payload the chosen message type admits": the conditions under which
    strict parsing of the transport layer is determined by the configuration alone *)
-Definition icmp_type_code (req rep : N) (k : icmp_kind) : N * N :=
-  match k with
-  | IcUnknown t c _ => (t, c)
-  | IcEchoRequest _ _ => (req, 0)
-  | IcEchoReply _ _ => (rep, 0)
+(* RFC 792 type and code octets of a configured ICMPv4 message *)
+Definition icmp4_tc (t : CtlMsg.Spec.Icmpv4Type) : N * N :=
+  match t with
+  | CtlMsg.Spec.V4Unknown ty c _ _ _ _ => (ty, c)
+  | CtlMsg.Spec.V4EchoReply _ _ => (0, 0)
+  | CtlMsg.Spec.V4DestinationUnreachable d => (3, du_code_u8 d)
+  | CtlMsg.Spec.V4Redirect c _ _ _ _ => (5, Icmp4.icmp4_redirect_code_u8 c)
+  | CtlMsg.Spec.V4EchoRequest _ _ => (8, 0)
+  | CtlMsg.Spec.V4TimeExceeded c => (11, Icmp4.icmp4_time_exceeded_code_u8 c)
+  | CtlMsg.Spec.V4ParameterProblem (CtlMsg.Spec.PointerIndicatesError _) => (12, 0)
+  | CtlMsg.Spec.V4ParameterProblem CtlMsg.Spec.MissingRequiredOption => (12, 1)
+  | CtlMsg.Spec.V4ParameterProblem CtlMsg.Spec.BadLength => (12, 2)
+  | CtlMsg.Spec.V4TimestampRequest _ => (13, 0)
+  | CtlMsg.Spec.V4TimestampReply _ => (14, 0)
   end.
-(* ICMPv4 timestamp / timestamp reply messages are exactly 20 bytes *)
-Definition icmp4_admits (k : icmp_kind) (plen : N) : bool :=
-  let tc := icmp_type_code 8 0 k in
-  if ((fst tc =? 13) || (fst tc =? 14)) && (snd tc =? 0) then plen =? 12 else true.
+(* ICMPv4 timestamp / timestamp reply messages (type 13 / 14, code 0) are exactly 20 bytes:
+   the typed variants TimestampRequest / TimestampReply (20 byte header) admit only the
+   EMPTY payload; a raw Unknown{13|14, 0, ..} (8 byte header) admits exactly 12 bytes.
+   Every other ICMPv4 kind and every ICMPv6 kind admits any payload. *)
+Definition icmp4_admits (t : CtlMsg.Spec.Icmpv4Type) (plen : N) : bool :=
+  let tc := icmp4_tc t in
+  if ((fst tc =? 13) || (fst tc =? 14)) && (snd tc =? 0)
+  then Icmp4.icmp4_type_header_len t + plen =? 20 else true.
 Definition raw_number_ok (c : cfg) (n : N) : bool :=
   negb ((n =? 1) || (n =? 6) || (n =? 17) || (n =? 58) || (n =? 51))
   && match c_net c with
@@ -166,19 +180,27 @@ Definition net_wf (n : net_cfg) : bool :=
   | NtIpv6 h x => ip6_wf h && ExtChain.Model.exts6_valid x
   | NtArp a => arp_wf a
   end.
-Definition icmp_wf (k : icmp_kind) : bool :=
-  match k with
-  | IcUnknown t c b => (t <? 256) && (c <? 256) && (len b =? 4) && bytes_okb b
-  | IcEchoRequest i s => (i <? 65536) && (s <? 65536)
-  | IcEchoReply i s => (i <? 65536) && (s <? 65536)
+(* the ranges of the Rust field types (u8 / u16 / u32 / [u8;4]); unlike C08's wf_icmp4_type
+   a raw Unknown{type, code} MAY name a typed kind -- icmpv4_raw(8, 0, ..) is a legal call *)
+Definition icmp4_cfg_wf (t : CtlMsg.Spec.Icmpv4Type) : bool :=
+  match t with
+  | CtlMsg.Spec.V4Unknown ty c b4 b5 b6 b7 =>
+      (ty <? 256) && (c <? 256) && (b4 <? 256) && (b5 <? 256) && (b6 <? 256) && (b7 <? 256)
+  | _ => Icmp4.wf_icmp4_type t
+  end.
+Definition icmp6_cfg_wf (t : CtlMsg.Spec.Icmpv6Type) : bool :=
+  match t with
+  | CtlMsg.Spec.V6Unknown ty c b4 b5 b6 b7 =>
+      (ty <? 256) && (c <? 256) && (b4 <? 256) && (b5 <? 256) && (b6 <? 256) && (b7 <? 256)
+  | _ => Icmp6.wf_icmp6_type t
   end.
 Definition tr_wf (t : transport_cfg) : bool :=
   match t with
   | TrNone n => n <? 256
   | TrUdp s d => (s <? 65536) && (d <? 65536)
   | TrTcp h => Tcp.wf_tcp h
-  | TrIcmpv4 k => icmp_wf k
-  | TrIcmpv6 k => icmp_wf k
+  | TrIcmpv4 t => icmp4_cfg_wf t
+  | TrIcmpv6 t => icmp6_cfg_wf t
   end.
 (* typestate: a VLAN header only behind ethernet2, ARP only behind a link layer *)
 Definition shape_ok (c : cfg) : bool :=
